@@ -1,5 +1,6 @@
 import Clover.Proofs.Window
 import Clover.Proofs.SortOrder
+import Clover.Model.QueryBuilder
 /-! # C08 — sort order and skip/limit windows are exact -/
 namespace CV.Props.C08
 open CV
@@ -76,5 +77,48 @@ theorem findAll_in_index_order (s : Spec.State) (σ : KVS) (hw : WF s) (hr : Rep
     window law `window_exact` applies to it), and a window of a sorted sequence is sorted. -/
 theorem window_of_sorted_is_sorted (R : Doc → Doc → Prop) (skip : Nat) (limit : Int) (l : List Doc) (h : l.Pairwise R) :
     (Spec.window skip limit l).Pairwise R := window_sorted R skip limit l h
+
+end CV.Props.C08
+
+namespace CV.Props.C08
+open CV
+
+/-- **The builders normalise as documented** (`Model/QueryBuilder.lean` is what the driver builds every
+    query with, so the correspondence ties it to `query.Skip/Limit/Sort`): a negative skip is
+    ignored … -/
+theorem skip_negative_ignored (q : Query) (n : Int) (h : n < 0) : q.skipB n = q := by
+  unfold Query.skipB; simp [Int.not_le.2 h]
+
+/-- … a negative limit means unlimited (the window is everything after `skip`) … -/
+theorem limit_negative_unlimited (skip : Nat) (limit : Int) (h : limit < 0) (l : List Doc) :
+    Spec.window skip limit l = l.drop skip := by simp [Spec.window, h]
+
+/-- … `Sort()` without options orders by `_id` ascending … -/
+theorem sort_default_by_id (q : Query) : (q.sortB []).sort = [(idField, 1)] := rfl
+
+/-- … and every direction is normalised to 1 (zero or positive) or -1 (negative), whatever integer
+    the caller supplied — so the comparator's `r * dir` cannot overflow or vanish. -/
+theorem direction_normalised (q : Query) (opts : List (Bytes × Int)) :
+    ∀ o ∈ (q.sortB opts).sort, o.2 = 1 ∨ o.2 = -1 := by
+  intro o ho
+  unfold Query.sortB at ho
+  by_cases he : opts.isEmpty = true
+  · simp only [he, if_true, List.mem_singleton] at ho; rw [ho]; exact Or.inl rfl
+  · simp only [he, Bool.false_eq_true, if_false, normalizeSortOptions, List.mem_map] at ho
+    obtain ⟨x, _, hx⟩ := ho
+    rw [← hx]
+    by_cases h0 : x.2 ≥ 0 <;> simp [h0]
+
+theorem direction_sign (q : Query) (f : Bytes) (dir : Int) :
+    (q.sortB [(f, dir)]).sort = [(f, if dir ≥ 0 then 1 else -1)] := rfl
+
+/-- the builders are pure: they return a new query and cannot modify the one they were called on
+    (functions on immutable values; `C07.no_receiver_writes` is the corresponding fact about the Go
+    methods). -/
+theorem builders_keep_other_fields (q : Query) (n : Int) (opts : List (Bytes × Int)) (c : Crit) :
+    (q.limitB n).skip = q.skip ∧ (q.limitB n).sort = q.sort ∧ (q.limitB n).crit = q.crit ∧
+    (q.sortB opts).skip = q.skip ∧ (q.sortB opts).limit = q.limit ∧ (q.sortB opts).crit = q.crit ∧
+    (q.whereB c).skip = q.skip ∧ (q.whereB c).limit = q.limit ∧ (q.whereB c).sort = q.sort :=
+  ⟨rfl, rfl, rfl, rfl, rfl, rfl, rfl, rfl, rfl⟩
 
 end CV.Props.C08
